@@ -118,7 +118,17 @@ def condensed_trace(out):
     end = blk.find("\n/\\ ", 5)
     return re.findall(r'op \|-> "(\w+)"', blk[:end if end > 0 else None])
 
-def replay_slice(module, cfg_template, consts, ezdrive, workers=None, nproc=None, timeout=1800, tag="slice", sample_every=9973, keep_mod=1):
+def replay_slice(module, cfg_template, consts, ezdrive, **kw):
+    """see _replay_slice; a TLC error on the specification itself is re-tried once (TLC's multi-worker evaluation of shared values has shown
+    rare spurious evaluation errors: 'model failure = exit 2, report only what repeats')."""
+    res = _replay_slice(module, cfg_template, consts, ezdrive, **kw)
+    if res["tlc_errors"]:
+        log("[tlc] %s reported %s; running it once more with one worker" % (module, res["tlc_errors"][:1]))
+        kw2 = dict(kw); kw2["workers"] = 1
+        res = _replay_slice(module, cfg_template, consts, ezdrive, **kw2)
+    return res
+
+def _replay_slice(module, cfg_template, consts, ezdrive, workers=None, nproc=None, timeout=1800, tag="slice", sample_every=9973, keep_mod=1):
     """TLC explores the bounded instance, checks its invariants/properties, and prints every transition
     (ACTION_CONSTRAINT Dump); the stream is split round-robin over nproc `ezdrive replay` processes that execute
     path+op on the real object and compare with the specification's post-state. Nothing is stored but failures."""
@@ -273,9 +283,12 @@ def dump_edges(module, cfg_template, consts, path, workers=None, timeout=1800):
     time.sleep(0.2)
     out = open(tlclog).read() if os.path.exists(tlclog) else ""
     summ = tlc_summary(out)
-    if summ is None or tlc_errors(out) or summ["left"] != 0:
-        raise Infra("TLC failed on %s: %s\n%s" % (module, tlc_errors(out), out[-1500:]))
     shutil.rmtree(md, ignore_errors=True)
+    if summ is None or tlc_errors(out) or summ["left"] != 0:
+        if workers != 1:
+            log("[tlc] %s reported %s; running it once more with one worker" % (module, tlc_errors(out)[:1]))
+            return dump_edges(module, cfg_template, consts, path, workers=1, timeout=timeout)
+        raise Infra("TLC failed on %s: %s\n%s" % (module, tlc_errors(out), out[-1500:]))
     return summ
 
 def replay_file(ezdrive, path, nproc=None, env=None):
